@@ -13,7 +13,6 @@ import decimal
 import re
 import textwrap
 
-from functools import lru_cache as cache
 from decimal import Decimal
 
 import dateutil.parser
@@ -884,6 +883,9 @@ class Row:
     def __init__(self, entries, options):
         self.rowid = 0
         self.balance = inventory.Inventory()
+        # Memo of the balance column: the value computed for row 'balance_rowid'.
+        self.balance_rowid = None
+        self.balance_value = None
 
 
 class BeanTable(tables.Table):
@@ -1229,16 +1231,18 @@ def weight(context):
 
 
 @column(inventory.Inventory)
-@cache(maxsize=1)
 def balance(context):
     """The balance for the posting. These can be summed into inventories."""
-    # Caching protects against multiple balance updates per row when
-    # the columns appears more than once in the execurted query. The
-    # rowid in the row context guarantees that otherwise identical
-    # rows do not hit the cache and thus that the balance is correctly
-    # updated.
-    context.balance.add_position(context.posting)
-    return copy.copy(context.balance)
+    # The memo kept on the row context protects against multiple
+    # balance updates per row when the column appears more than once
+    # in the executed query: the balance is updated once per rowid and
+    # the same value is returned for further references in that row.
+    # The memo is per row context, not shared between table scans.
+    if context.balance_rowid != context.rowid:
+        context.balance.add_position(context.posting)
+        context.balance_value = copy.copy(context.balance)
+        context.balance_rowid = context.rowid
+    return context.balance_value
 
 
 @column(dict)
